@@ -170,8 +170,7 @@ Proof.
   destruct (ps_before s) as [|cur [|p r]]; destruct (ps_after s) as [|x a].
   1-5: destruct (ps_first_line s) as [l|]; [destruct (N.leb 1 l)|]; repeat split.
   destruct (find_prev (p :: r) (ps_pos s - 2) (ps_kept s)) as [[prev prev_pos]|]; [|repeat split].
-  destruct (Nat.eqb (tk_fileid prev) (tk_fileid cur)); [|repeat split].
-  match goal with |- context [if N.leb ?a ?b then _ else _] => destruct (N.leb a b) end; repeat split.
+  repeat match goal with |- context [if ?c then _ else _] => destruct c end; repeat split.
 Qed.
 
 Lemma csim_get_token c : csim (get_token c).
